@@ -4,7 +4,7 @@ C12 — OutputAsync honours its mode (wait / cancel / start) for every arrival p
 Model: EdzedModel/OutputAsync.lean (control tasks `_ctrl_wait/_ctrl_cancel/_ctrl_start`, the output task
 with its result events and shielded guard sleep, `stop`/`stop_async`).  A script is a list of `Op`s:
 `put t pre batch x` (arrival of data `x` at instant `t`, before/after the block's own timers of that instant,
-possibly in one batch with the previous put), `stop t pre` (the deadline `t + stopTimeout` is armed),
+possibly in one batch with the previous put; after the stop it is a *late* put, see below), `stop t pre batch` (the deadline `t + stopTimeout` is armed),
 `finish` (let everything run to completion).
 `run c ops` is the state after the script, `(run c ops).log` the time-stamped log (newest first) of
 arrival markers `put j`, output changes `out n`, coroutine `start/done/cancelled j` and result events
@@ -50,8 +50,10 @@ theorem at_most_one_result_ever (c : Cfg) (ops : List Op) (j : Job) :
   have hb := run_balanced c ops j
   exact ⟨by omega, (run_uniq c ops).2 j⟩
 
-/-- every accepted put (incl. stop_data) has exactly one of success / error / cancel, carrying the
-    job itself (its sequence number and original data), once the work is complete -/
+/-- every put accepted before `stop()` (arrival marker `put j`), and stop_data, has exactly one of
+    success / error / cancel, carrying the job itself (its sequence number and original data), once the
+    work is complete.  (Puts that reach the block after `stop()` carry the marker `late j`, see
+    `late_put_never_served` and `every_put_exactly_one_result_partial`.) -/
 theorem exactly_one_result (c : Cfg) (ops : List Op) (t : Nat) (j : Job)
     (h : (t, Ev.put j) ∈ (final c ops).log) : (resJobs (final c ops).log).count j = 1 := by
   have hb := run_balanced c (ops ++ [.finish]) j
@@ -68,9 +70,9 @@ theorem exactly_one_result (c : Cfg) (ops : List Op) (t : Nat) (j : Job)
     carries the deadline `stop time + stop_timeout` (`expire`), and an expiry only cancels the coroutines
     running in that instant (they are reported cancelled); see `timeout_cancels_only_at_expiry`,
     `cancel_only_by_newer` and the `example`s at the end for what happens to each item -/
-theorem stop_completes_pending_work (c : Cfg) (ops : List Op) (ts : Nat) (pre : Bool) (t : Nat)
-    (j : Job) (h : (t, Ev.put j) ∈ (final c (ops ++ [.stop ts pre])).log) :
-    (resJobs (final c (ops ++ [.stop ts pre])).log).count j = 1 :=
+theorem stop_completes_pending_work (c : Cfg) (ops : List Op) (ts : Nat) (pre batch : Bool) (t : Nat)
+    (j : Job) (h : (t, Ev.put j) ∈ (final c (ops ++ [.stop ts pre batch])).log) :
+    (resJobs (final c (ops ++ [.stop ts pre batch])).log).count j = 1 :=
   exactly_one_result c _ t j h
 
 /-- the kind of each result matches what the run did: success (error) is reported exactly when the
@@ -242,14 +244,66 @@ theorem stop_data_last (c : Cfg) (ops : List Op) (d : Item)
   · have := hidle.2.2.2; simp only [final] at this; rw [this] at hp; cases hp
   · exact hs.2.2.2
 
+/-- a put that reaches the block after its `stop()` (an internal event sent during the clean-up: `Block.event`
+    still delivers it and `_event_put` queues it behind the sentinel) never starts a run and is never
+    reported: no success, no error, no cancel -- at any later point of any script -/
+theorem late_put_never_served (c : Cfg) (ops : List Op) (t : Nat) (j : Job)
+    (h : (t, Ev.late j) ∈ (run c ops).log) :
+    (∀ t', (t', Ev.start j) ∉ (run c ops).log) ∧ (resJobs (run c ops).log).count j = 0 := by
+  have hl := run_lateInv c ops j (mem_lateJobs h)
+  have hnp : j ∉ putJobs (run c ops).log := fun hp => by
+    have := (run_uniq c ops).1 j hp; omega
+  refine ⟨fun t' hs => hnp ((run_startPut c ops).2.2 j (mem_startJobs hs)), ?_⟩
+  have := (at_most_one_result_ever c ops j).1
+  have h0 : (putJobs (run c ops).log).count j = 0 := List.count_eq_zero_of_not_mem hnp
+  omega
+
+/-- after the start of the stop_data run no other run starts -- puts that arrive after `stop()` included
+    (they never start at all): stop_data's run is the last one to start -/
+theorem stop_data_is_last_start (c : Cfg) (ops : List Op) (d : Item)
+    (hst : (final c ops).stopped = true) (hd : c.stopData = some d) :
+    ∃ l1 t l2, (final c ops).log = l1 ++ (t, Ev.start ⟨(final c ops).nacc - 1, d⟩) :: l2 ∧
+      ∀ t' k, (t', Ev.start k) ∈ l1 → k = ⟨(final c ops).nacc - 1, d⟩ := by
+  obtain ⟨l1, t, l2, hl, hall⟩ := stop_data_last c ops d hst hd
+  refine ⟨l1, t, l2, hl, fun t' k hk => ?_⟩
+  rcases hall _ hk with h | h
+  · simpa [evJob] using h
+  · simp [evJob] at h
+
+/--
+Full statement of the property: "every 'put' accepted by an OutputAsync block results in exactly one of
+on_success, on_error or on_cancel".  It does not hold for puts that are accepted after `stop()`
+(`late_put_never_served`: they are dropped silently; known finding C12-put-after-stop-dropped, the
+counter-example is the `example` below), so it is proved under the hypothesis that no put arrives after
+the stop: then every arrival marker is a `put` marker and has exactly one result.
+-/
+theorem every_put_exactly_one_result_partial (c : Cfg) (ops : List Op)
+    (hnl : ∀ t j, (t, Ev.late j) ∉ (final c ops).log) (t : Nat) (j : Job)
+    (h : (t, Ev.put j) ∈ (final c ops).log ∨ (t, Ev.late j) ∈ (final c ops).log) :
+    (resJobs (final c ops).log).count j = 1 := by
+  rcases h with h | h
+  · exact exactly_one_result c ops t j h
+  · exact absurd h (hnl t j)
+
 /-! ### the hypotheses are satisfiable: concrete scripts -/
+
+/-- a put after `stop()` (cancel mode, sent while the controller waits for the guard sleep of the cancelled
+    run): accepted, never started, never reported; stop_data runs last and succeeds -/
+example :
+    let c : Cfg := ⟨.cancel, 2, some ⟨99, 2, false⟩, 1000⟩
+    let ops := [Op.put 0 true false ⟨1, 5, false⟩, .stop 1 true false, .put 2 true false ⟨2, 1, false⟩]
+    (2, Ev.late ⟨2, ⟨2, 1, false⟩⟩) ∈ (final c ops).log ∧
+    (resJobs (final c ops).log).count ⟨2, ⟨2, 1, false⟩⟩ = 0 ∧
+    (3, Ev.start ⟨1, ⟨99, 2, false⟩⟩) ∈ (final c ops).log ∧
+    (5, Ev.succ ⟨1, ⟨99, 2, false⟩⟩) ∈ (final c ops).log := by decide +kernel
+
 
 /-- cancel mode, guard 2: run 0 is cancelled by put 1, put 1 is discarded for put 2 (which arrives during
     the guard sleep), put 2 completes; three results, output back to 0 -/
 example :
     let c : Cfg := ⟨.cancel, 2, none, 1000⟩
     let ops := [Op.put 0 true false ⟨1, 5, false⟩, .put 2 true false ⟨2, 5, false⟩,
-                .put 3 true false ⟨3, 1, false⟩, .stop 30 true]
+                .put 3 true false ⟨3, 1, false⟩, .stop 30 true false]
     (2, Ev.cancelled ⟨0, ⟨1, 5, false⟩⟩) ∈ (final c ops).log ∧
     (4, Ev.canc ⟨1, ⟨2, 5, false⟩⟩) ∈ (final c ops).log ∧
     (4, Ev.start ⟨2, ⟨3, 1, false⟩⟩) ∈ (final c ops).log ∧
@@ -259,7 +313,7 @@ example :
 /-- wait mode with stop_data: queued work and then stop_data are processed after the stop -/
 example :
     let c : Cfg := ⟨.wait, 1, some ⟨99, 2, false⟩, 1000⟩
-    let ops := [Op.put 0 true false ⟨1, 3, false⟩, .put 1 false false ⟨2, 3, true⟩, .stop 2 true]
+    let ops := [Op.put 0 true false ⟨1, 3, false⟩, .put 1 false false ⟨2, 3, true⟩, .stop 2 true false]
     (final c ops).stopped = true ∧
     (7, Ev.err ⟨1, ⟨2, 3, true⟩⟩) ∈ (final c ops).log ∧
     (8, Ev.start ⟨2, ⟨99, 2, false⟩⟩) ∈ (final c ops).log ∧
@@ -268,7 +322,7 @@ example :
 /-- start mode: two overlapping runs, stop_data after both -/
 example :
     let c : Cfg := ⟨.start, 0, some ⟨99, 2, false⟩, 1000⟩
-    let ops := [Op.put 0 true false ⟨1, 3, false⟩, .put 1 true false ⟨2, 2, false⟩, .stop 2 true]
+    let ops := [Op.put 0 true false ⟨1, 3, false⟩, .put 1 true false ⟨2, 2, false⟩, .stop 2 true false]
     (1, Ev.out 2) ∈ (final c ops).log ∧ (3, Ev.start ⟨2, ⟨99, 2, false⟩⟩) ∈ (final c ops).log := by
   decide +kernel
 
@@ -279,7 +333,7 @@ example :
 example :
     let c : Cfg := ⟨.wait, 0, some ⟨99, 2, false⟩, 4⟩
     let ops := [Op.put 0 true false ⟨1, 3, false⟩, .put 1 true false ⟨2, 3, false⟩,
-                .put 1 true true ⟨3, 3, false⟩, .stop 2 true]
+                .put 1 true true ⟨3, 3, false⟩, .stop 2 true false]
     (6, Ev.timeout) ∈ (final c ops).log ∧
     (6, Ev.canc ⟨1, ⟨2, 3, false⟩⟩) ∈ (final c ops).log ∧
     (6, Ev.start ⟨2, ⟨3, 3, false⟩⟩) ∈ (final c ops).log ∧
